@@ -189,12 +189,13 @@ def monC07 (g : Ghost) (o : Obs) : List String :=
     exact.  Single-victim stores only (entry limit). -/
 def docScore (o : Obs) (hits rank age : Nat) : Float :=
   let f := hits.toFloat
-  let fc := match o.fw with
-    | none => f
-    | some w => if hits = 0 then 0.0 else Float.pow f w
-  let af := match o.cfg.ttl with
-    | none => 1.0
-    | some t => max (1.0 - min (age.toFloat / 1000.0 / t.toFloat) 1.0) 0.0
+  let fc := match o.fw, o.cfg.policy with
+    | some w, .tlru => if hits = 0 then 0.0 else Float.pow f w
+    | _, _ => f
+  -- the remaining-lifetime fraction belongs to the TLRU score only (ARC = hits × rank)
+  let af := match o.cfg.ttl, o.cfg.policy with
+    | some t, .tlru => max (1.0 - min (age.toFloat / 1000.0 / t.toFloat) 1.0) 0.0
+    | _, _ => 1.0
   fc * rank.toFloat * af
 
 def indexOf? (k : String) : List String → Option Nat
